@@ -937,6 +937,8 @@ MergePorts::MergePorts(std::initializer_list<const rtosc::Ports*> c)
  *               the walker will be applied on the enabling port
  * @param data Data parameter for @p walker
  * @param port_runtime The runtime object of @p port itself (optional)
+ * @param portname_from_base Where, inside @p loc, the (expanded) name of
+ *                           @p port starts (optional)
  * @return True if no runtime is provided or @p port has no enabled property.
  *         Otherwise, the state of the "enabled by" toggle
  */
@@ -944,7 +946,8 @@ bool port_is_enabled(const Port* port, char* loc, size_t loc_size,
                      const Ports& base, void *runtime,
                      bool relative_to_parent,
                      port_walker_t walker, void* data,
-                     void *port_runtime = NULL)
+                     void *port_runtime = NULL,
+                     const char* portname_from_base = NULL)
 {
     // TODO: this code should be improved
     if(port && runtime)
@@ -981,9 +984,17 @@ bool port_is_enabled(const Port* port, char* loc, size_t loc_size,
             int loclen = strlen(loc);
             STACKALLOC(char, loc_copy, loc_size);
             strcpy(loc_copy, loc); // TODO: clang says strcpy is insecure
-            if(relative_to_parent)
-                strncat(loc_copy, "../", loc_size - loclen - 1);
-            strncat(loc_copy, enable_port, loc_size - loclen - 3 - 1);
+            // an enabling port inside the port itself is found at the port's
+            // own (expanded) address; "../name#N/port" would keep the "#N"
+            const bool below = subport && portname_from_base;
+            if(below)
+                strncat(loc_copy, ask_port_str, loc_size - loclen - 1);
+            else
+            {
+                if(relative_to_parent)
+                    strncat(loc_copy, "../", loc_size - loclen - 1);
+                strncat(loc_copy, enable_port, loc_size - loclen - 3 - 1);
+            }
 
             char* collapsed_loc = Ports::collapsePath(loc_copy);
             loc_size -= (collapsed_loc - loc_copy);
@@ -1022,8 +1033,9 @@ bool port_is_enabled(const Port* port, char* loc, size_t loc_size,
                 //            abc/enable
                 //
                 // (only with relative_to_parent there is a "../" to skip)
-                const char* old_end = loc_copy + loclen
-                                      + (relative_to_parent ? 3 : 0);
+                const char* old_end = below
+                    ? collapsed_loc + (portname_from_base - loc)
+                    : loc_copy + loclen + (relative_to_parent ? 3 : 0);
                 walker(ask_port, collapsed_loc, old_end, base, data,
                        (subport && port_runtime) ? port_runtime : runtime);
             }
@@ -1091,7 +1103,7 @@ static void walk_ports_recurse(const Port& p, char* name_buffer,
             // check if the port is disabled by a switch
             enabled = port_is_enabled(&p, name_buffer, buffer_size,
                                       base, runtime, true, walker, data,
-                                      r.obj);
+                                      r.obj, old_end);
             runtime = r.obj; // callback has stored the pointer of p here
         }
     }
